@@ -16,29 +16,30 @@ GEOM_STUBS = [
 ]
 
 META = {
-    "functions_encoded": ["engine::eval::phased_eval::PhasedEval::{new, midgame, endgame, for_phase, add, sub, neg}, phase_value, piece_phase_value_contribution",
-                          "engine::eval::piece_square_tables::{eval, piece_contributions}", "engine::eval::material::{eval, bishop_pair_eval}",
-                          "engine::eval::pawn_structure::{eval, eval_passed_pawns, calculate_passed_pawn_bonus, is_passed}", "engine::eval::mobility_and_king_safety::eval",
-                          "engine::eval::{eval, absolute_eval, absolute_eval_with_trace}, Eval::from_white_eval",
-                          "parameter tables: piece-square tables, passed-pawn masks and table as produced by the real init() of this tree (native dump); mobility/king-safety "
-                          "tables are compile-time constants of the crate"],
-    "stubs": ["six table look-ups -> geometry (C07) in the mobility and whole-evaluation harnesses"],
-    "bounds": ["blend: ALL i16 (mg, eg) pairs that can be packed, phase 0..88", "piece-square / phase / bishop-pair / passed-pawn terms: any valid position (reachable material for the "
-               "piece-square term, <= 8 pawns a side for the pawn term), 64-square loops fully unwound",
-               "mobility term and whole evaluation: officers per kind and colour <= 1 (quick) / 2 (thorough) because the term loops over them"],
-    "outside": ["boundedness |eval| < 31900 for material beyond the whole-evaluation harness's bound (e.g. nine queens a side) - only the piece-square term's halves are shown "
-                "to stay inside i16 for all reachable material"],
-    "assumptions": ["validity predicate of harness/verif/pos.rs; mirror = colour swap + rank flip on the oracle's bitboards"],
-    "trusted_base": ["kani 0.68.0", "cbmc 6.11.0", "cadical", "C07"],
-    "explanation": "Blend kernel over all inputs; per-term antisymmetry under mirroring on symbolic boards; whole evaluation on bounded material.",
+    "functions_encoded": ["engine::eval::phased_eval::PhasedEval::{new, midgame, endgame, for_phase, add, sub, neg}",
+                          "engine::eval::piece_square_tables::piece_contributions (real tables)", "engine::eval::pawn_structure::{is_passed, enemy_passed_pawn_mask, pst_value} (real masks/table)",
+                          "engine::eval::material::{eval, bishop_pair_eval}",
+                          "thorough only: piece_square_tables::eval, phase_value, pawn_structure::eval, mobility_and_king_safety::eval, eval::eval on symbolic boards",
+                          "parameter tables: piece-square tables, passed-pawn masks and table as produced by the real init() of this tree (native dump)"],
+    "stubs": ["six table look-ups -> geometry (C07) in the thorough mobility and whole-evaluation harnesses only"],
+    "bounds": ["blend: ALL i16 (mg, eg) pairs that can be packed, phase 0..88", "per-man lemmas: every colour, kind, square; every enemy pawn set",
+               "bishop-pair term: any valid position", "thorough whole-term harnesses: see their descriptions (officers <= 1 per kind and colour where the term loops over them)"],
+    "outside": ["term(mirror(P)) == -term(P) on whole boards is decided per man (quick); the step from per-man antisymmetry to the 64-term sums is commutativity of addition "
+                "plus the sum form of the loops (inspected; for the accumulators also C15's init-is-sum lemma), not a solver verdict - equality of two permuted 64-term "
+                "adder trees does not finish in SAT (measured > 30 min)",
+                "mobility / king-safety term symmetry and |eval| < 31900 for extreme material: only in thorough, may stay inconclusive"],
+    "assumptions": ["mirror = colour swap + rank flip"],
+    "trusted_base": ["kani 0.68.0", "cbmc 6.11.0", "cadical"],
+    "explanation": "Blend kernel over all inputs; per-man antisymmetry of the table-driven terms on the real tables; whole-term statements only in thorough.",
 }
 MANIFEST = {
     "text": "Bounded model checking: (1) for_phase lies between its middlegame and endgame inputs for ALL packable pairs and every phase 0..88 (weights never "
-            "negative), packing round-trips, packed negation/addition act half-wise; (2) per term on fully symbolic valid positions with the real parameter tables: "
-            "term(mirror(P)) == -term(P) for the piece-square+material term (any reachable material, halves stay inside i16 with overflow checks on), the bishop-pair "
-            "term, the passed-pawn term (<= 8 pawns a side), the game-phase counter, and - officers bounded - the mobility/king-safety term; (3) the whole "
-            "evaluation from the mover's view equals that of the mirrored position and lies strictly inside the non-mate band on bounded material.",
-    "note": "Mobility term and whole evaluation only for <= 1 (quick) / 2 (thorough) officers per kind and colour; boundedness for extreme material shown per term (piece-square) only.",
+            "negative), packing round-trips, packed negation/addition act half-wise; (2) per man, on the real tables: the piece-square(+material) value of a man equals "
+            "minus that of the colour-swapped man on the rank-flipped square (all 768 cells, magnitudes far inside an i16 half), passed-ness / mask / bonus of a pawn "
+            "are mirror images for the two colours and passed-ness equals its geometric definition (every square, every enemy pawn set); the bishop-pair term is "
+            "antisymmetric on every valid position. Whole-board symmetry of the summed terms follows by commutativity of addition; whole-term and whole-evaluation "
+            "harnesses exist in thorough but the solver may not finish them.",
+    "note": "Mobility/king-safety symmetry and boundedness for extreme material are not decided in quick; the sum step is an argument, not a solver verdict.",
     "design_ref": "DESIGN.md s.4 C16",
 }
 DUMP = ["PST", "PP"]
@@ -57,23 +58,30 @@ def inst(kind, k, pawns=0):
 
 
 def jobs(tier, seed):
-    k = 2 if tier == "thorough" else 1
+    k = 1
     t = 7200 if tier == "thorough" else 2400
     js = [
         Job("c16_blend", "for_phase(mg, eg, phase) lies between mg and eg for all pairs and phases 0..88", timeout=900, min_covers=2),
         Job("c16_pack", "PhasedEval::new/midgame/endgame round trip for all packable pairs", timeout=300),
         Job("c16_neg_add", "packed negation / addition / subtraction act half-wise", timeout=300),
-        Job("c16_sym_pst", "piece-square+material term antisymmetric under mirroring, any reachable material, no overflow", timeout=t, mem_gb=24, witness=False),
-        Job("c16_sym_phase", "game phase colour-blind and equal to 1/1/2/4 per N/B/R/Q, any valid position", timeout=t, mem_gb=16, witness=False, checks="functional"),
-        Job("c16_sym_material", "bishop-pair term antisymmetric under mirroring", timeout=900, witness=False, checks="functional"),
-        Job("c16_sym_pawns", "passed-pawn term antisymmetric under mirroring, <= 8 pawns a side", timeout=t, mem_gb=24, witness=False, checks="functional"),
+        Job("c16_cell_pst", "piece-square value of a man == -value of the colour-swapped man on the flipped square; every colour, kind, square; real tables", timeout=900),
+        Job("c16_cell_passed_pawn", "passed-ness, mask and bonus of a pawn are mirror images for the two colours; every square and enemy pawn set; real tables", timeout=1200,
+            min_covers=2),
+        Job("c16_sym_material", "bishop-pair term antisymmetric under mirroring, any valid position", timeout=900, witness=False, checks="functional"),
     ]
-    n, src = inst("mobility", k)
-    js.append(Job(n, f"mobility/king-safety term antisymmetric under mirroring, <= {k} officers per kind and colour", gen=src, timeout=t, mem_gb=24, witness=False,
-                  checks="functional", params={"per_kind": k}))
-    n, src = inst("total", k, 2 if tier != "thorough" else 4)
-    js.append(Job(n, f"eval(mirror(P)) == eval(P) from the mover's view, inside the non-mate band, <= {k} officers per kind and colour", gen=src, timeout=t, mem_gb=24,
-                  witness=False, params={"per_kind": k}))
+    if tier == "thorough":
+        # whole-term statements on symbolic boards: equality of two 64-term sums in different order is hard for SAT; long caps, may stay inconclusive
+        js += [
+            Job("c16_sym_pst", "piece-square+material term antisymmetric under mirroring, any reachable material, no overflow", timeout=t, mem_gb=24, witness=False),
+            Job("c16_sym_phase", "game phase colour-blind and equal to 1/1/2/4 per N/B/R/Q, any valid position", timeout=t, mem_gb=16, witness=False, checks="functional"),
+            Job("c16_sym_pawns", "passed-pawn term antisymmetric under mirroring, <= 8 pawns a side", timeout=t, mem_gb=24, witness=False, checks="functional"),
+        ]
+        n, src = inst("mobility", k)
+        js.append(Job(n, f"mobility/king-safety term antisymmetric under mirroring, <= {k} officers per kind and colour", gen=src, timeout=t, mem_gb=24, witness=False,
+                      checks="functional", params={"per_kind": k}))
+        n, src = inst("total", k, 2)
+        js.append(Job(n, f"eval(mirror(P)) == eval(P) from the mover's view, inside the non-mate band, <= {k} officers per kind and colour", gen=src, timeout=t, mem_gb=30,
+                      witness=False, params={"per_kind": k}))
     return js
 
 
